@@ -1144,6 +1144,10 @@ def _decision_cases(ctx):
         A3 = np.array([[1.0, 2.0, 3.0], [4.0, 5.0, 6.0], [7.0, 8.0, 9.0]])
         if nu <= 40:
             out.append({"A": A3 * (nu / 18.0), "h": 1.0, "fam": "singular"})
+    # `_ell(2**-s0 A, 13) > 0`: non-normal matrices whose powers are much smaller than the powers of |A|
+    for x in (4.0, 16.0, 40.0):
+        out.append({"A": np.array([[x, -x], [x, -x]]) + np.diag([-0.5, -0.25]), "h": 1.0, "fam": "nonnormal"})
+        out.append({"A": np.array([[x, -x, 0.0], [x, -x, 1.0], [0.0, 0.5, -1.0]]), "h": 1.0, "fam": "nonnormal"})
     # positive matrices: no cancellation in the power series, the 200-pass limit is reached by growth alone
     out.append({"A": np.array([[120.0]]), "h": 1.0, "fam": "positive"})
     out.append({"A": np.array([[260.0, 20.0], [20.0, 260.0]]), "h": 0.5, "fam": "positive"})
